@@ -1,5 +1,9 @@
 (* C13 -- Attention and RNNs: stepwise equals whole-sequence; padding and masks are inert. *)
-From Flaxm Require Import Lib.Harness Model.Seq Proofs.Seq.
+From Coq Require Import QArith.
+From Flaxm Require Import Lib.Harness Model.Seq Proofs.Seq Model.Layers Model.Attn Proofs.Attn.
+Close Scope Q_scope.
+Close Scope Z_scope.
+Open Scope nat_scope.
 
 (* RNN(cell) with seq_lengths, for every cell, carry and sequence: the outputs at the valid positions and the returned
    carry are those of the Python loop of the cell over the valid inputs (reverse: over the valid prefix reversed);
@@ -38,9 +42,45 @@ Theorem C13_decode_equals_causal : forall KV Q Y (att : Q -> list KV -> Y) (qs :
 Proof. exact decode_equals_causal. Qed.
 Print Assumptions C13_decode_equals_causal.
 
-(* NOT proved: that attention weights are the softmax over the allowed positions and that masked positions receive
-   exactly zero weight (exp underflow of finfo.min), the cells' recurrences, time_major / batch handling, Linen = NNX:
-   decided per run against numpy references, paired-input oracles and the integer-cell correspondence. *)
+(* attention weights (Model/Attn.v: one (batch, head) slice, logits in units of ln 2 so that the exponentials are rational):
+   a masked position receives weight exactly 0; the weights of a query that may see a key sum to 1; over the allowed
+   positions they are proportional to exp(logit), i.e. the softmax of the scaled dot products plus bias; subtracting the
+   row maximum (or any constant) changes nothing *)
+Theorem C13_masked_weight_zero : forall l m j, j < length l -> length l = length m -> nth j m true = false ->
+  (nth j (weights l m) 0 == 0)%Q.
+Proof. exact masked_weight_zero. Qed.
+Print Assumptions C13_masked_weight_zero.
+Theorem C13_weights_sum_to_one : forall l m, length l = length m -> (exists j, j < length l /\ nth j m true = true) ->
+  (qsum (weights l m) == 1)%Q.
+Proof. exact weights_sum_one. Qed.
+Print Assumptions C13_weights_sum_to_one.
+Theorem C13_weights_are_softmax : forall l m i j, i < length l -> j < length l -> length l = length m ->
+  nth i m true = true -> nth j m true = true ->
+  (nth i (weights l m) 0 * pow2 (nth j l 0%Z) == nth j (weights l m) 0 * pow2 (nth i l 0%Z))%Q.
+Proof. exact weights_proportional. Qed.
+Print Assumptions C13_weights_are_softmax.
+Theorem C13_weights_shift_invariant : forall c l m j, j < length l -> length l = length m ->
+  (exists i, i < length l /\ nth i m true = true) -> (nth j (weights (map (Z.add c) l) m) 0 == nth j (weights l m) 0)%Q.
+Proof. exact weights_shift_invariant. Qed.
+Print Assumptions C13_weights_shift_invariant.
+(* keys, biases and values at positions the mask excludes cannot influence the output of the query *)
+Theorem C13_attention_ignores_masked : forall dv q ks ks' bias bias' mask vs vs',
+  length ks = length mask -> length ks' = length mask -> length bias = length mask -> length bias' = length mask ->
+  length vs = length mask -> length vs' = length mask ->
+  (forall j, j < length mask -> nth j mask true = true ->
+     nth j ks [] = nth j ks' [] /\ nth j bias 0%Z = nth j bias' 0%Z /\ nth j vs [] = nth j vs' []) ->
+  Forall2 Qeq (attend dv q ks bias mask vs) (attend dv q ks' bias' mask vs').
+Proof. exact attend_ignores_masked. Qed.
+Print Assumptions C13_attention_ignores_masked.
+Example C13_attention_example :
+  attend 1 [1]%Z [[0]; [1]; [5]]%Z [0; 0; 0]%Z [true; true; false] [[6]; [3]; [100]]%Z = [108 # 27]%Q /\
+  weights [0; 1; 5]%Z [true; true; false] = [1 # 3; 2 # 3; 0 # 3]%Q.
+Proof. vm_compute. split; reflexivity. Qed.
+
+(* NOT proved: that exp(finfo.min - max) underflows to exactly 0 in the float arithmetic and the float rounding of the
+   softmax (compared per run within 1e-9), the cells' recurrences, time_major / batch handling, Linen = NNX:
+   decided per run against numpy references, paired-input oracles, the integer-cell correspondence and the
+   power-of-two attention correspondence. *)
 (* the mask helpers: make_attention_mask is the pairwise predicate, make_causal_mask lets query i see exactly the keys
    0 .. i (so row i of the causal mask selects the prefix the decode cache holds at step i), combine_masks is the
    pointwise conjunction of the masks that are given and None when none is *)
